@@ -18,6 +18,14 @@ TEXT = {
             "F1 (fixed-size types ignore the declared length) is a listed known finding; leniency is probed per type on every run"),
     "C04": ("proof", "5 C04", "Theorem C04_no_panic: no byte string reaches a panic site of the model decoder (every checked subtraction/addition/slice is an explicit panic outcome), recursion on explicit fuel. Partial: stack consumption, allocation and wall-clock time are exercised on a 2 MiB thread under supervision (abort/hang attributed to the exact frame), not proved.",
             "proof (partial): real stack bytes per level, allocator, time are runtime behaviour"),
+    "C05": ("proof", "5 C05", "Theorems C05_fault (success against a writer that dies after k octets implies no internal error and every octet accepted, for every message and every k), C05_range (a Time outside the 32-bit 1900-based range or an AVP/message length of 2^24 or more anywhere in the tree makes the encoder fail; mutual induction), C05_ok_is_complete (a success hands over exactly Spec.encode). Tie: fault enumeration over EVERY k of every corpus frame with short-write / Interrupted / Ok(0) delivery modes, out-of-range Times at every nesting level, lengths at and past 2^24.",
+            "std::io::Write::write_all semantics are assumed (and exercised); the writer is modelled by its total budget, which is what the property quantifies over"),
+    "C14": ("proof", "5 C14", "Refinement theorem C14_refines: after any history of constructions, document loads and additions the ordered-map model represents the list of supplied definitions (lookup = last supplied for exactly that key; keys strictly sorted, nothing shadowed); corollaries C14_get, C14_no_shadow, C14_by_name_live, C14_by_name_iff, C14_app_declared. Tie: generated histories with colliding codes, names, vendor twins and all must spellings, documents rendered to XML for the real parser; the whole key/name universe is dumped after every step; by-name compared by membership.",
+            "serde-xml-rs tokenisation is inside the tie, not the proof"),
+    "C15": ("proof", "5 C15", "Theorems C15_names / C15_unknown_name (exactly sixteen spellings are types), C15_lookup_unknown_iff, C15_reject (no entry for the exact pair, or unrecognised type => decoding fails, whatever twins exist), C15_variant (what is returned carries the variant the exact entry declares). Tie: exhaustive table type spelling x entry scope x wire vendor x twins; every definition of both shipped dictionaries read independently by tools/xmlscan.py.",
+            "none beyond the trusted base"),
+    "C16": ("proof", "5 C16", "Theorems C16_from_name (the AVP built by name is the AVP built from the definition's explicit numbers, hence encodes identically), C16_flags, C16_which (the definition is live and carries the name), C16_unknown / C16_unknown_step (failure leaves message and dictionary untouched), C16_known_step. Tie: every name of dict0, generated and shipped dictionaries, unknown names between other additions, dictionary histories with retired names.",
+            "by-name pick among several live definitions with one name follows the BTreeMap order in the model"),
     "C17": ("proof", "5 C17", "Theorems C17_u32/i32/enum/f32/time/ipv4/u64/i64/f64 quantify over all octet values (omega on the byte decomposition), C17_injective gives the bijection. Tie: per-value fx probes and checksum sweeps (thorough tier: all 2^32 values of each of the six 4-octet types on both sides).",
             "chrono's timestamp arithmetic and std's Ipv4Addr Display are external, tied by the sweep"),
     "C18": ("proof", "5 C18", "Theorems C18_get_first, C18_typed, C18_typed_unique, C18_group_members, C18_decoded_order over all messages. Tie: get/acc/dump probes; the property is also evaluated directly on the implementation's own dump.",
